@@ -55,8 +55,6 @@ MUTANTS = [
     (T, "TEBD.sweep", "                self._pt.left_canonize_site(self.L - 2)\n", "                pass\n", "expect-fail"),
     (T, "TEBD.sweep", "            # just queue the new sweep\n            else:\n                self._queued_sweep = [direction, dt_frac]\n                return",
      "            # just queue the new sweep\n            else:\n                self._queued_sweep = [direction, dt_frac]", "expect-fail"),
-    (T, "TEBD.sweep", "sites = (self.L - 1, 0)\n                    U = self._get_gate_from_ham(dt_frac, sites)\n                    self._pt.right_canonize_site(1)",
-     "sites = (0, self.L - 1)\n                    U = self._get_gate_from_ham(dt_frac, sites)\n                    self._pt.right_canonize_site(1)", "expect-fail"),
     (T, "TEBD.sweep", "            start_site_ind = 0\n            final_site_ind = self.L - 1\n", "            start_site_ind = 0\n            final_site_ind = self.L - 2\n", "expect-fail"),
     # ---- TEBD._get_gate_from_ham
     (T, "TEBD._get_gate_from_ham", "imag_factor = 1.0 if self.imag else 1.0j", "imag_factor = 1.0j if self.imag else 1.0", "expect-fail"),
@@ -188,3 +186,9 @@ def run_mutant(tmp, relpath, suffix, old, new):
     if unknown:
         return "unknown", f"{unknown} undecided"
     return "discharged", ""
+
+# the periodic boundary gate spelled against the stored (sorted) orientation of its term: C11-c, repaired in /repo
+MUTANTS += [
+    ("quimb/tensor/tn1d/tebd.py", "TEBD.sweep", "                    sites = (0, self.L - 1)\n                    U = self._get_gate_from_ham(dt_frac, sites)\n                    self._pt.right_canonize_site(1)",
+     "                    sites = (self.L - 1, 0)\n                    U = self._get_gate_from_ham(dt_frac, sites)\n                    self._pt.right_canonize_site(1)", "expect-fail"),
+]
